@@ -262,10 +262,13 @@ Section Rel.
       induction f as [|path alias|fn path alias|q alias|jt st l IHl r IHr on]; intro ctx; cbn [build_from].
       - apply R_refl.
       - destruct path as [|k rest]; [apply R_refl|].
-        destruct (cte_lookup k (c_ctes ctx)) as [body|]; [|apply R_refl].
-        destruct (existsb (String.eqb k) (c_busy ctx)); [apply R_refl|].
-        apply R_bind; [apply Hrec|]. intro; apply R_refl.
-      - apply R_refl.
+        destruct (cte_lookup k (c_ctes ctx)) as [body|].
+        + destruct (existsb (String.eqb k) (c_busy ctx)); [apply R_refl|].
+          apply R_bind; [apply Hrec|]. intro; apply R_refl.
+        + destruct (up_read ctx (k :: rest)) as [h|]; [|apply R_refl].
+          destruct (existsb (String.eqb (uh_name h)) (fr_busy (uh_frame h))); [apply R_refl|].
+          apply R_bind; [apply Hrec|]. intro; apply R_refl.
+      - destruct (up_read ctx path); apply R_refl.
       - apply R_bind; [apply Hrec|]. intro; apply R_refl.
       - apply R_bind; [apply IHl|]. intro lf. apply R_bind; [apply IHr|]. intro rf.
         destruct lf as [lrows|]; [|apply R_refl]. destruct rf as [rrows|]; [|apply R_refl].
